@@ -1,0 +1,165 @@
+//go:build verif
+
+package capella
+
+// Contracts for govc (see /verif/DESIGN.md). Comment-only: no declarations.
+
+// ---------------------------------------------------------------- execution engine (assumed interface model, C18)
+// Engine verdicts are uninterpreted functions of (engine, payload object); ghost counters record
+// what the engine was shown. The payload header is stored through SetLatestExecutionPayloadHeader (counted).
+//@ sort EngI_capella = ExecutionEngine
+//@ sort PayloadT_capella = ExecutionPayload
+//@ ufun eng_hash_err_capella(EngI_capella, PayloadT_capella) bool
+//@ ufun eng_hash_ok_capella(EngI_capella, PayloadT_capella) bool
+//@ ufun eng_notify_err_capella(EngI_capella, PayloadT_capella) bool
+//@ ufun eng_notify_valid_capella(EngI_capella, PayloadT_capella) bool
+
+//@ func (e ExecutionEngine) CapellaIsValidBlockHash(ctx, payload) (ok, err)
+//@   trusted
+//@   opt noalloc
+//@   ensures (err != nil) == eng_hash_err_capella(e, *payload)
+//@   ensures err == nil ==> ok == eng_hash_ok_capella(e, *payload)
+
+//@ func (e ExecutionEngine) CapellaNotifyNewPayload(ctx, executionPayload) (valid, err)
+//@   trusted
+//@   opt noalloc
+//@   assigns ghost(n_eng_notify)
+//@   ensures n_eng_notify == old(n_eng_notify) + 1
+//@   ensures (err != nil) == eng_notify_err_capella(e, *executionPayload)
+//@   ensures err == nil ==> valid == eng_notify_valid_capella(e, *executionPayload)
+
+//@ func (s ExecutionTrackingBeaconState) SetLatestExecutionPayloadHeader(h) err
+//@   trusted
+//@   assigns anything, ghost(n_set_exec_header)
+//@   ensures n_set_exec_header == old(n_set_exec_header) + 1
+
+// BEGIN C18 generated (tools/gen_c18.py in /verif)
+// cancelled: a context cancelled before the call makes it fail; surfaced: a cancellation observed by a poll
+// during the call makes it fail; polled: success after a poll means the context was not cancelled at entry.
+
+//@ func ProcessBLSToExecutionChanges(ctx, spec, epc, state, ops) err
+//@   property C18
+//@   panics off
+//@   requires ctx != nil
+//@   opt weakcalls
+//@   opt inline=closures
+//@   assigns anything, ghost(ctx_t), ghost(ctx_seen)
+//@   ensures surfaced: !old(ctx_seen) && ctx_seen ==> err != nil
+//@   ensures polled: err == nil && ctx_t > old(ctx_t) ==> !ctx_cancelled(ctx, old(ctx_t))
+//@   ensures time: ctx_t >= old(ctx_t)
+//@   loop *
+//@     invariant ctx_t >= old(ctx_t) && (old(ctx_seen) || !ctx_seen)
+//@     invariant ctx_t > old(ctx_t) ==> !ctx_cancelled(ctx, old(ctx_t))
+
+//@ func ProcessBLSToExecutionChange(ctx, spec, epc, state, op) err
+//@   property C18
+//@   panics off
+//@   requires ctx != nil
+//@   opt weakcalls
+//@   opt inline=closures
+//@   assigns anything, ghost(ctx_t), ghost(ctx_seen)
+//@   ensures surfaced: !old(ctx_seen) && ctx_seen ==> err != nil
+//@   ensures polled: err == nil && ctx_t > old(ctx_t) ==> !ctx_cancelled(ctx, old(ctx_t))
+//@   ensures time: ctx_t >= old(ctx_t)
+//@   loop *
+//@     invariant ctx_t >= old(ctx_t) && (old(ctx_seen) || !ctx_seen)
+//@     invariant ctx_t > old(ctx_t) ==> !ctx_cancelled(ctx, old(ctx_t))
+
+//@ func VerifyAndNotifyNewPayload(ctx, eng, newPayloadRequest) (r0, err)
+//@   property C18
+//@   panics off
+//@   requires ctx != nil
+//@   opt weakcalls
+//@   opt inline=closures
+//@   assigns anything, ghost(ctx_t), ghost(ctx_seen)
+//@   ensures surfaced: !old(ctx_seen) && ctx_seen ==> err != nil
+//@   ensures polled: err == nil && ctx_t > old(ctx_t) ==> !ctx_cancelled(ctx, old(ctx_t))
+//@   ensures time: ctx_t >= old(ctx_t)
+//@   loop *
+//@     invariant ctx_t >= old(ctx_t) && (old(ctx_seen) || !ctx_seen)
+//@     invariant ctx_t > old(ctx_t) ==> !ctx_cancelled(ctx, old(ctx_t))
+//@   assigns ghost(n_eng_notify)
+//@   ensures verdict: err == nil && r0 ==> !eng_hash_err_capella(eng, old(*newPayloadRequest.ExecutionPayload)) && eng_hash_ok_capella(eng, old(*newPayloadRequest.ExecutionPayload)) && !eng_notify_err_capella(eng, old(*newPayloadRequest.ExecutionPayload)) && eng_notify_valid_capella(eng, old(*newPayloadRequest.ExecutionPayload)) && n_eng_notify == old(n_eng_notify) + 1
+//@   ensures faults: (eng_hash_err_capella(eng, old(*newPayloadRequest.ExecutionPayload)) ==> err != nil) && (n_eng_notify > old(n_eng_notify) && eng_notify_err_capella(eng, old(*newPayloadRequest.ExecutionPayload)) ==> err != nil)
+//@   ensures asked_once: n_eng_notify <= old(n_eng_notify) + 1
+
+//@ func ProcessExecutionPayload(ctx, spec, state, executionPayload, engine) err
+//@   property C18
+//@   panics off
+//@   requires ctx != nil
+//@   opt weakcalls
+//@   opt inline=closures
+//@   assigns anything, ghost(ctx_t), ghost(ctx_seen)
+//@   ensures cancelled: ctx_cancelled(ctx, old(ctx_t)) ==> err != nil
+//@   ensures surfaced: !old(ctx_seen) && ctx_seen ==> err != nil
+//@   ensures polled: err == nil && ctx_t > old(ctx_t) ==> !ctx_cancelled(ctx, old(ctx_t))
+//@   ensures time: ctx_t >= old(ctx_t)
+//@   loop *
+//@     invariant ctx_t >= old(ctx_t) && (old(ctx_seen) || !ctx_seen)
+//@     invariant ctx_t > old(ctx_t) ==> !ctx_cancelled(ctx, old(ctx_t))
+//@   assigns ghost(n_eng_notify), ghost(n_set_exec_header)
+//@   ensures approved: err == nil ==> !eng_hash_err_capella(engine, old(*executionPayload)) && eng_hash_ok_capella(engine, old(*executionPayload)) && !eng_notify_err_capella(engine, old(*executionPayload)) && eng_notify_valid_capella(engine, old(*executionPayload)) && n_eng_notify == old(n_eng_notify) + 1
+//@   ensures header_after_approval: n_set_exec_header > old(n_set_exec_header) ==> n_set_exec_header == old(n_set_exec_header) + 1 && eng_hash_ok_capella(engine, old(*executionPayload)) && eng_notify_valid_capella(engine, old(*executionPayload)) && !eng_hash_err_capella(engine, old(*executionPayload)) && !eng_notify_err_capella(engine, old(*executionPayload))
+//@   ensures header_on_success: err == nil ==> n_set_exec_header == old(n_set_exec_header) + 1
+
+//@ func (state *BeaconStateView) ProcessEpoch(ctx, spec, epc) err
+//@   property C18
+//@   panics off
+//@   requires ctx != nil
+//@   opt weakcalls
+//@   opt inline=closures
+//@   assigns anything, ghost(ctx_t), ghost(ctx_seen)
+//@   ensures cancelled: ctx_cancelled(ctx, old(ctx_t)) ==> err != nil
+//@   ensures surfaced: !old(ctx_seen) && ctx_seen ==> err != nil
+//@   ensures polled: err == nil && ctx_t > old(ctx_t) ==> !ctx_cancelled(ctx, old(ctx_t))
+//@   ensures time: ctx_t >= old(ctx_t)
+//@   loop *
+//@     invariant ctx_t >= old(ctx_t) && (old(ctx_seen) || !ctx_seen)
+//@     invariant ctx_t > old(ctx_t) ==> !ctx_cancelled(ctx, old(ctx_t))
+
+//@ func (state *BeaconStateView) ProcessBlock(ctx, spec, epc, benv) err
+//@   property C18
+//@   panics off
+//@   requires ctx != nil
+//@   opt weakcalls
+//@   opt inline=closures
+//@   assigns anything, ghost(ctx_t), ghost(ctx_seen)
+//@   ensures cancelled: ctx_cancelled(ctx, old(ctx_t)) ==> err != nil
+//@   ensures surfaced: !old(ctx_seen) && ctx_seen ==> err != nil
+//@   ensures polled: err == nil && ctx_t > old(ctx_t) ==> !ctx_cancelled(ctx, old(ctx_t))
+//@   ensures time: ctx_t >= old(ctx_t)
+//@   loop *
+//@     invariant ctx_t >= old(ctx_t) && (old(ctx_seen) || !ctx_seen)
+//@     invariant ctx_t > old(ctx_t) ==> !ctx_cancelled(ctx, old(ctx_t))
+//@   assigns ghost(n_eng_notify), ghost(n_set_exec_header)
+
+//@ func ProcessWithdrawals(ctx, spec, state, executionPayload) err
+//@   property C18
+//@   panics off
+//@   requires ctx != nil
+//@   opt weakcalls
+//@   opt inline=closures
+//@   assigns anything, ghost(ctx_t), ghost(ctx_seen)
+//@   ensures surfaced: !old(ctx_seen) && ctx_seen ==> err != nil
+//@   ensures polled: err == nil && ctx_t > old(ctx_t) ==> !ctx_cancelled(ctx, old(ctx_t))
+//@   ensures time: ctx_t >= old(ctx_t)
+//@   loop *
+//@     invariant ctx_t >= old(ctx_t) && (old(ctx_seen) || !ctx_seen)
+//@     invariant ctx_t > old(ctx_t) ==> !ctx_cancelled(ctx, old(ctx_t))
+
+//@ func ProcessHistoricalSummariesUpdate(ctx, spec, epc, state) err
+//@   property C18
+//@   panics off
+//@   requires ctx != nil
+//@   opt weakcalls
+//@   opt inline=closures
+//@   assigns anything, ghost(ctx_t), ghost(ctx_seen)
+//@   ensures cancelled: ctx_cancelled(ctx, old(ctx_t)) ==> err != nil
+//@   ensures surfaced: !old(ctx_seen) && ctx_seen ==> err != nil
+//@   ensures polled: err == nil && ctx_t > old(ctx_t) ==> !ctx_cancelled(ctx, old(ctx_t))
+//@   ensures time: ctx_t >= old(ctx_t)
+//@   loop *
+//@     invariant ctx_t >= old(ctx_t) && (old(ctx_seen) || !ctx_seen)
+//@     invariant ctx_t > old(ctx_t) ==> !ctx_cancelled(ctx, old(ctx_t))
+
+// END C18 generated
